@@ -9,6 +9,7 @@ package main
 import (
 	"bytes"
 	"context"
+	"errors"
 	"fmt"
 	"reflect"
 	"sort"
@@ -657,6 +658,89 @@ func twoHop(id string, seed uint64) runner.Result {
 	return res
 }
 
+// atTheLimit: the metadata of a call is as large as the peer's reader accepts a packet to be (a limit
+// configured on the server, or the default), one byte less, and one byte more. Up to and including the
+// limit it arrives intact, and the calls after it work; beyond it the call may fail, and nothing else.
+func atTheLimit(id string, seed uint64) runner.Result {
+	r := &payload.SplitMix{S: seed}
+	limit := payload.Pick(r, []int{200, 1000, 4096, 70000})
+	delta := payload.Pick(r, []int{-1, 0, 0, 1})
+	var mu sync.Mutex
+	var saw []map[string]string
+	h := rig.HandlerFunc(func(stream drpc.Stream, rpc string) error {
+		var m []byte
+		if err := stream.MsgRecv(&m, payload.Enc{}); err != nil {
+			return err
+		}
+		md, _ := drpcmetadata.Get(stream.Context())
+		cp := map[string]string{}
+		for k, v := range md {
+			cp[k] = v
+		}
+		mu.Lock()
+		saw = append(saw, cp)
+		mu.Unlock()
+		return stream.MsgSend(&m, payload.Enc{})
+	})
+	sopts := drpcmanager.Options{Reader: drpcwire.ReaderOptions{MaximumBufferSize: limit}}
+	rg := rig.New(rig.Config{Net: simnet.Opts{Cap: -1}, Server: sopts}, h)
+	defer rg.Teardown()
+	// one pair whose encoding is exactly limit+delta bytes: find the value length by encoding
+	val := limit
+	var md map[string]string
+	for {
+		md = map[string]string{"k": strings.Repeat("v", val)}
+		enc, _ := drpcmetadata.Encode(nil, md)
+		if len(enc) == limit+delta {
+			break
+		}
+		val -= len(enc) - (limit + delta)
+		if val < 0 {
+			return runner.Inconcl(id, "no value length gives the wanted encoding size")
+		}
+	}
+	desc := fmt.Sprintf("server reader limit %d; a call whose metadata encodes to %d bytes between two ordinary calls", limit, limit+delta)
+	in := payload.Make(1, 0, 0, 0, 5)
+	call := func(ctx context.Context) error {
+		var out []byte
+		op := rig.Go("call", func() (interface{}, error) { return nil, rg.Conn.Invoke(ctx, "/m", payload.Enc{}, &in, &out) })
+		if !op.Wait() {
+			return errors.New("blocked")
+		}
+		return op.Err
+	}
+	var fails []string
+	if err := call(drpcmetadata.Add(context.Background(), "first", "1")); err != nil {
+		return runner.Inconcl(id, "the first call failed: "+err.Error())
+	}
+	err := call(drpcmetadata.AddPairs(context.Background(), md))
+	mu.Lock()
+	n := len(saw)
+	var last map[string]string
+	if n > 0 {
+		last = saw[n-1]
+	}
+	mu.Unlock()
+	if delta <= 0 {
+		if err != nil {
+			fails = append(fails, fmt.Sprintf("the call with metadata of %d bytes (limit %d) failed: %s", limit+delta, limit, rig.ErrStr(err)))
+		} else if n != 2 || !eqMap(last, md) {
+			fails = append(fails, fmt.Sprintf("the handler of the call with metadata of %d bytes saw %s", limit+delta, summarize(last)))
+		}
+		if err2 := call(context.Background()); err2 != nil && len(fails) == 0 {
+			fails = append(fails, "the call after it failed: "+rig.ErrStr(err2))
+		}
+	} else if err == nil && (n != 2 || !eqMap(last, md)) {
+		fails = append(fails, fmt.Sprintf("the call with metadata beyond the limit succeeded and its handler saw %s", summarize(last)))
+	}
+	if len(fails) > 0 {
+		return runner.Violation(id, "metadata-at-the-limit", desc+"\n"+strings.Join(fails, "\n"))
+	}
+	res := runner.Hold(id, desc, true)
+	res.Events = 3
+	return res
+}
+
 // abandoned: at wire level, a metadata packet for stream N that is never
 // followed by its invoke (the caller gave up in between), then call N+1.
 func abandoned(id string, seed uint64) runner.Result {
@@ -900,6 +984,10 @@ func gen(tier string, seed uint64) []runner.Scenario {
 		out = append(out, runner.Scenario{ID: id, Run: func() runner.Result { return e2e(id, payload.Hash(seed, 0x113, uint64(i))) }})
 		id2 := fmt.Sprintf("abandoned/%d", i)
 		out = append(out, runner.Scenario{ID: id2, Run: func() runner.Result { return abandoned(id2, payload.Hash(seed, 0x114, uint64(i))) }})
+		if i%5 == 0 {
+			id4 := fmt.Sprintf("at-the-limit/%d", i)
+			out = append(out, runner.Scenario{ID: id4, Run: func() runner.Result { return atTheLimit(id4, payload.Hash(seed, 0x116, uint64(i))) }})
+		}
 		id3 := fmt.Sprintf("two-hop/%d", i)
 		out = append(out, runner.Scenario{ID: id3, Run: func() runner.Result { return twoHop(id3, payload.Hash(seed, 0x115, uint64(i))) }})
 	}
